@@ -444,10 +444,27 @@ def timeline_case(col, case):
 # ------------------------------------------------------------------------------------ PWM
 def pwm_case(col, case):
     rng = rng_for(case["seed"])
-    dut = PWM(with_csr=False)
+    csr = bool(case.get("csr"))
+    dut = PWM(with_csr=csr)
     viol = Viol()
     segs = case["segments"]        # list of (enable, period, width, duration)
-    st = {"i": -1, "left": 0, "since": 0, "cfg": None, "hist": [], "periods": 0, "cycles": 0}
+    st = {"i": -1, "left": 0, "since": 0, "cfg": None, "hist": [], "periods": 0, "cycles": 0, "intent": None}
+    if csr:
+        # software writes the enable / width / period registers (add_csr); the output is judged against what software wrote
+        from props.c19lib import CSRTop, CSRMaster
+        ctop = CSRTop(dut)
+
+        def prog():
+            for en, per, wid, dur in segs:
+                st["intent"] = None                      # between the three writes the configuration is in transit
+                yield ("w", "enable", 0)
+                yield ("w", "period", per)
+                yield ("w", "width", wid)
+                yield ("w", "enable", en)
+                yield ("idle", 3)
+                st["intent"] = (en, per, wid)
+                yield ("idle", dur)
+        cmaster = CSRMaster(ctop, prog(), gap=1)
 
     def drive(c):
         if st["left"] <= 0:
@@ -467,6 +484,11 @@ def pwm_case(col, case):
 
         def step(self, v, c):
             cfg = (v[dut.enable], v[dut.period], v[dut.width])
+            if csr:
+                if st["intent"] is None:
+                    st["cfg"] = None
+                    return None
+                cfg = st["intent"]
             if cfg != st["cfg"]:
                 st["cfg"], st["since"], st["hist"] = cfg, 0, []
             else:
@@ -503,11 +525,13 @@ def pwm_case(col, case):
             return None
     tr = Tracer([("enable", dut.enable), ("period", dut.period), ("width", dut.width), ("pwm", dut.pwm), ("counter", dut.counter)], depth=40)
     viol.tracer = tr
-    total = sum(s[3] for s in segs)
-    b = Bench(dut, cap=total + 20)
-    for a in (Script(drive), Mon(), tr, Stopper(lambda: False, after=total + 2)):
+    total = sum(s[3] for s in segs) + (len(segs) * 16 if csr else 0)
+    b = Bench(ctop if csr else dut, cap=total + 20)
+    for a in ((cmaster,) if csr else (Script(drive),)) + (Mon(), tr, Stopper(lambda: False, after=total + 2)):
         b.add(a)
     b.run()
+    if csr:
+        col.ev("pwm_csr_periods", st["periods"])
     col.ev("pwm_periods", st["periods"])
     col.ev("pwm_cycles", st["cycles"])
     for en, per, wid, dur in segs:
@@ -555,6 +579,9 @@ def cases(tier, seed):
         rr = rng_for(seed, "C19/pwm", k)
         maxp = [6, 10, 17, 33][k % 4]
         out.append({"cls": "pwm", "seed": "%d/C19/pwm/%d" % (seed, k), "segments": pwm_segments(rr, 8 if q else 12, maxp), "settle": 2 * maxp + 4})
+        if k % 2 == 0:
+            out.append({"cls": "pwm", "csr": True, "seed": "%d/C19/pwm_csr/%d" % (seed, k), "segments": pwm_segments(rr, 6 if q else 10, maxp),
+                        "settle": 2 * maxp + 4})
     return out
 
 
